@@ -337,7 +337,7 @@ Proof.
 Qed.
 
 (* completeness under ascending exons *)
-Lemma exons_asc_all x t : exons_asc (x :: t) -> Forall (fun y => snd x < fst y) t.
+Lemma exons_asc_all x t : exons_asc (x :: t) -> Forall (fun y => snd x <= fst y) t.
 Proof.
   revert x. induction t as [|y t IH]; intros x H; [constructor|].
   cbn [exons_asc] in H. destruct H as (Hx & Hxy & Hy).
@@ -360,9 +360,9 @@ Qed.
 Fixpoint exons_desc (l : list (Z * Z)) : Prop :=
   match l with
   | [] => True
-  | x :: t => fst x < snd x /\ Forall (fun y => snd y < fst x) t /\ exons_desc t
+  | x :: t => fst x < snd x /\ Forall (fun y => snd y <= fst x) t /\ exons_desc t
   end.
-Lemma exons_desc_app l x : exons_desc l -> fst x < snd x -> Forall (fun y => snd x < fst y) l -> exons_desc (l ++ [x]).
+Lemma exons_desc_app l x : exons_desc l -> fst x < snd x -> Forall (fun y => snd x <= fst y) l -> exons_desc (l ++ [x]).
 Proof.
   induction l as [|y t IH]; intros D Hx F.
   - cbn. repeat split; auto.
